@@ -71,12 +71,15 @@ def scan_uninstrumented():
                 out.append(f"{os.path.relpath(path, REPO)}:{i+1}: {line.strip()}")
     return out
 
-def run_shards(binary, base_args, nshards, out_prefix, timeout):
-    """run `binary base_args --shard i/n --out file` for all shards, NCPU at a time"""
+def run_shards(binary, base_args, nshards, out_prefix, timeout, aborts=None):
+    """run `binary base_args --shard i/n --out file` for all shards, NCPU at a time.
+    If `aborts` is a list, a shard that dies with an E1-ABORT-MARK (non-unwinding panic) is recorded there and
+    re-run without the aborting configuration (at most 6 times per shard)."""
     os.makedirs(os.path.dirname(out_prefix), exist_ok=True)
     pending = list(range(nshards))
     running = {}
     results = {}
+    skip = {}
     t0 = time.time()
     while pending or running:
         while pending and len(running) < NCPU:
@@ -84,7 +87,9 @@ def run_shards(binary, base_args, nshards, out_prefix, timeout):
             out = f"{out_prefix}.{i}.json"
             if os.path.exists(out):
                 os.remove(out)
-            p = subprocess.Popen([binary] + base_args + ["--shard", f"{i}/{nshards}", "--out", out], stdout=subprocess.PIPE, stderr=subprocess.STDOUT, text=True)
+            sk = skip.get(i, [])
+            extra = ["--skip-idx", ",".join(str(x) for x in sk)] if sk else []
+            p = subprocess.Popen([binary] + base_args + extra + ["--shard", f"{i}/{nshards}", "--out", out], stdout=subprocess.PIPE, stderr=subprocess.STDOUT, text=True)
             running[i] = (p, out)
         done = [i for i, (p, _) in running.items() if p.poll() is not None]
         if not done:
@@ -98,10 +103,19 @@ def run_shards(binary, base_args, nshards, out_prefix, timeout):
             p, out = running.pop(i)
             txt = p.stdout.read()
             if p.returncode != 0 or not os.path.exists(out):
+                m = re.search(r"E1-ABORT-MARK idx=(\d+)\tcli=([^\t\n]*)\tpanic=([^\n]*)", txt)
+                if m and aborts is not None:
+                    aborts.append({"idx": int(m.group(1)), "cli": m.group(2), "panic": m.group(3)})
+                    skip.setdefault(i, []).append(int(m.group(1)))
+                    if len(skip[i]) <= 6:
+                        pending.append(i)
+                    else:
+                        results[i] = None  # too many aborting configurations: the shard is abandoned (violations are reported)
+                    continue
                 raise MachineryError(f"engine shard {i}/{nshards} crashed (exit {p.returncode}): {txt[-2000:]}")
             results[i] = json.load(open(out))
             os.remove(out)
-    return [results[i] for i in range(nshards)]
+    return [results[i] for i in range(nshards) if results.get(i) is not None]
 
 # ------------------------------------------------------------------------------------------------
 # known findings
